@@ -12,7 +12,8 @@ import json
 
 from ..common import MachineryError, Verdict, require, scratch
 from ..corpus import library
-from ..proto import default_corpus, full_corpus, prepare_world, run_drivers_parallel
+from ..proto import default_corpus, full_corpus, prepare_world, run_drivers_parallel, tlc_given
+from ..randobj import Gen
 from .. import common
 from ._proto_common import short, strip_kinds, strip_sizes
 from .c02 import collect
@@ -74,7 +75,40 @@ def run(tier, corrupt=False):
                     v.violation(key, f"byte_size {d['obj'].get('_size')} != {len(s['bytes'])} bytes written", case)
                 elif d.get("nested_size_mismatch"):
                     v.violation(key, f"byte_size of nested objects differs from the bytes they occupy: {d['nested_size_mismatch'][:3]} (class, byte_size, bytes)", case)
+            # ---- pattern V: random larger objects (plain-ASCII strings, arrays <= 6, optional chains cut at the first None, empty
+            # arrays in the middle of a chain, boundary counts).  Whether an object is in C01's quantifier is decided by the MODEL
+            # (mode givenrt: it round-trips there), the verdict by the real round trip.
+            import random
+            from ..common import seed
+            rng = random.Random(seed() * 7919 + 1)
+            ctypes = {**types, **{p["name"]: {"kind": "struct", "dir": p["dir"], "code": p["code"]} for p in progs if p["kind"] == "struct"}}
+            gen = Gen(ctypes, rng, lossless=True)
+            idx = {p["name"]: i + 1 for i, p in enumerate(progs)}
+            per = 6 if tier == "quick" else 30
+            vcases = [{"p": idx[p["name"]], "obj": gen.obj(p["code"], p["name"]), "san0": False} for p in accepted if p["name"] not in ambiguous
+                      for _ in range(per if p.get("gen") else 3 * per)]
+            model = tlc_given(tmp, progs, types, vcases, "givenrt", withsize=False)
+            sel = [(c, m) for c, m in zip(vcases, model) if m["kind"] == "de" and m["rt_ok"]]
+            imp2, vres = run_drivers_parallel(src, wt, accepted, types, [{"kind": "rt", "prog": progs[c["p"] - 1]["name"], "obj": c["obj"], "salt": 0} for c, _ in sel])
+            nv = 0
+            for (c, m), o in zip(sel, vres):
+                nv += 1
+                if "harness_error" in o:
+                    raise MachineryError(o["harness_error"])
+                prog = progs[c["p"] - 1]["name"]
+                s_, d_ = o["ser"], o["de"]
+                key = f"{prog} (random) obj={short(c['obj'])}"
+                case = {"prog": prog, "obj": c["obj"], "observed": o}
+                if s_["ctor_exc"] or s_["exc"] or d_ is None or d_["exc"]:
+                    v.violation(key, f"a lossless object does not survive: constructor {s_['ctor_exc']!r} serialize {s_['exc']!r} deserialize {(d_ or {}).get('exc')!r}", case)
+                elif strip_sizes(d_["obj"]) != c["obj"]:
+                    v.violation(key, f"round trip changed the object: {short(strip_sizes(d_['obj']))}", case)
+                elif d_["pos"] != len(s_["bytes"]) or d_["remaining"] != 0 or d_["obj"].get("_size") != len(s_["bytes"]) or d_.get("nested_size_mismatch"):
+                    v.violation(key, f"consumed {d_['pos']} of {len(s_['bytes'])} bytes, byte_size {d_['obj'].get('_size')}, nested mismatches {d_.get('nested_size_mismatch')}", case)
+            n += nv
     cov = dict(stats)
+    cov["random_objects_round_tripped"] = nv
+    cov["random_objects_outside_the_quantifier_by_the_model"] = len(vcases) - len(sel)
     cov.update({"traces_validated_against_impl": n, "programs": len(rt_progs), "programs_excluded_as_ambiguous": [p["name"] for p in progs if not p.get("rt")] , "generated_programs_classified_ambiguous_by_the_model": len(ambiguous),
                 "generated_programs_round_tripped": len({r["prog"] for r in kept if r["prog"].startswith("G")}),
                 "samples": [{"prog": kept[0]["prog"], "obj": kept[0]["src"], "bytes": kept[0]["data"]}, {"prog": kept[-1]["prog"], "obj": kept[-1]["src"], "bytes": kept[-1]["data"]}],
